@@ -493,7 +493,7 @@ def check_C04(tier, seed, replay=None):
                           "[by|without] (k, selector) on primitive floats; cases with a tie inside a group are skipped", 40, 400,
                           shards_quick=8, shards_thorough=32)
     corr3 = _corr_generic("aggvalcases", "C04", "Agg.aggregate (the generic reused table) instantiated with the float accumulators of "
-                          "AggFloat.v (sum, max, min, count, avg, group, stddev, stdvar; transcribed from scalar_table.go) on the operand "
+                          "AggFloat.v (sum, max, min, count, avg, group, stddev, stdvar, quantile; transcribed from scalar_table.go) on the operand "
                           "stream of the engine's own operator tree vs the engine's result for <agg> [by (non-empty) | without (..)] "
                           "(selector), bit for bit", 40, 400, shards_quick=8, shards_thorough=32)
     return ref_family_check("C04", tier, seed, [("agg", 4000), ("epoch:agg", 500)], [("agg", 80000), ("noties", 20000), ("epoch:agg", 10000)],
